@@ -365,7 +365,7 @@ def run_repo_tests_as_traces(pid, tier, t0):
 
 TRACE_CFG = {
     "ConcTrace": 'SPECIFICATION TSpec\nCONSTANTS\n  Thread <- T8\n  CounterImpl = "fetch_add"\nCONSTRAINT Track\nINVARIANT TraceSingleUse\nPOSTCONDITION Accepted\nCHECK_DEADLOCK FALSE\n',
-    "ChainTrace": 'SPECIFICATION TSpec\nCONSTANTS\n  Thread <- T8\n  PushImpl = "try_insert"\n  MaxCells = 16\nCONSTRAINT Track\nINVARIANTS RefsOwn NothingLost DistinctCells\nPOSTCONDITION Accepted\nCHECK_DEADLOCK FALSE\n',
+    "ChainTrace": 'SPECIFICATION TSpec\nCONSTANTS\n  Thread <- T8\n  PushImpl = "try_insert"\n  LentImpl = "fetch_add"\n  MaxCells = 16\nCONSTRAINT Track\nINVARIANTS RefsOwn NothingLost DistinctCells LentOwn\nPOSTCONDITION Accepted\nCHECK_DEADLOCK FALSE\n',
     "MockTrace": 'SPECIFICATION TSpec\nCONSTANTS\n  Method = {"r0", "r1", "r2", "d0", "d1", "t0", "b0"}\n  Arg = {0, 1, 2, 3}\n  HasDefault <- tHasDefault\n  HasUnmock <- tHasUnmock\n  PartialByDef <- tPartialByDef\n  RetOwned <- tRetOwned\n  Required <- tRequired\n  HasMutexApi = TRUE\n  HasStd = TRUE\n  PoisonArg = 9\n  MaxCalls = 100000\nCONSTRAINT Track\nINVARIANTS FirstMatchOnly CountIsSelections KthResponse SingleDelivery OrderedPrefix SlotsOnlyByOrdered FallbackTable NoFabrication ErrorsRemembered VerdictIff\nPOSTCONDITION Accepted\nCHECK_DEADLOCK FALSE\n',
 }
 
@@ -555,14 +555,16 @@ def run_conc(pid, tier, t0, rule, assumptions, plan_key=None):
     return finish(pid, tier, LEVEL_MC, cov, assumptions, t0, divs)
 
 
-CHAIN_PROGS = {"quick": {"dfs": [[["p"], ["p"]], [["p", "p"], ["p", "p"]], [["p"], ["p"], ["p"]]], "free": [[["p", "p", "p"], ["p", "p", "p"], ["p", "p"], ["p", "p"]]], "free_runs": 300,
+CHAIN_PROGS = {"quick": {"dfs": [[["p"], ["p"]], [["p", "p"], ["p", "p"]], [["p"], ["p"], ["p"]], [["l", "l"], ["l"]], [["p", "l"], ["l", "p"]]],
+                         "free": [[["p", "p", "p"], ["p", "p", "p"], ["p", "p"], ["p", "p"]], [["l", "p", "l"], ["p", "l", "p"], ["l", "l"], ["l", "p"]]], "free_runs": 300,
                          "long": [[["p"] * 120], [["p"] * 20] * 2], "long_runs": 1,
-                         "mc": [("T2", 2), ("T3", 1)]},
-               "thorough": {"dfs": [[["p"], ["p"]], [["p", "p"], ["p", "p"]], [["p"], ["p"], ["p"]], [["p", "p", "p"], ["p", "p", "p"]], [["p", "p"], ["p"], ["p", "p"]]],
-                            "random": [[["p", "p", "p"], ["p", "p", "p"], ["p", "p", "p"], ["p", "p"]]], "runs": 3000,
-                            "free": [[["p", "p", "p"]] * 8], "free_runs": 5000,
+                         "mc": [("T2", 2, 0), ("T3", 1, 0), ("T2", 1, 2), ("T3", 0, 1)]},
+               "thorough": {"dfs": [[["p"], ["p"]], [["p", "p"], ["p", "p"]], [["p"], ["p"], ["p"]], [["p", "p", "p"], ["p", "p", "p"]], [["p", "p"], ["p"], ["p", "p"]],
+                                    [["l", "l"], ["l"]], [["p", "l"], ["l", "p"]], [["l"], ["l"], ["l"]], [["l", "p", "l"], ["l", "l"]]],
+                            "random": [[["p", "p", "p"], ["p", "p", "p"], ["p", "p", "p"], ["p", "p"]], [["l", "p", "l"], ["p", "l", "p"], ["l", "l", "l"], ["l", "p"]]], "runs": 3000,
+                            "free": [[["p", "p", "p"]] * 8, [["l", "p", "l"]] * 8], "free_runs": 5000,
                             "long": [[["p"] * 400], [["p"] * 30] * 8, [["p"] * 100] * 2], "long_runs": 1,     # long chains; 2-8 threads
-                            "mc": [("T2", 2), ("T3", 1), ("T3", 2), ("T2", 3)]}}
+                            "mc": [("T2", 2, 0), ("T3", 1, 0), ("T3", 2, 0), ("T2", 3, 0), ("T2", 1, 2), ("T3", 0, 1), ("T3", 1, 1), ("T2", 2, 2), ("T3", 0, 2)]}}
 
 
 def run_chain_conc(pid, tier, t0):
@@ -571,20 +573,25 @@ def run_chain_conc(pid, tier, t0):
     plan = CHAIN_PROGS[tier]
     cov = {"states": 0, "transitions": 0, "traces_validated_against_impl": 0, "samples": [], "instances": [], "evaluations": 0, "distinct_nontrivial": 0, "exhaustive": False,
            "rule": "(a) TLC: every interleaving of the try_insert steps of 2-3 pushers satisfies RefsOwn / NothingLost / DistinctCells / ChainLinear (and the find-then-fill variant violates them); (b) the real value chain under the baton scheduler (yield point before every try_insert): all schedules of small programs, random schedules, free-running threads; every execution (push / got / reread / drop-counter events) validated by ChainTrace.tla"}
-    for (thr, pushes) in plan["mc"]:
-        inst = {"module": "MC_Chain", "spec": "MSpec", "constants": {"Thread": "<-" + thr, "PushImpl": '"try_insert"', "MaxCells": 10, "PushesPer": pushes},
-                "invariants": ["RefsOwn", "NothingLost", "DistinctCells", "ChainLinear"]}
-        r = vf.run_tlc(inst, "chain_%s_%d" % (thr, pushes), workers=4, timeout=900)
+    for (thr, pushes, lents) in plan["mc"]:
+        inst = {"module": "MC_Chain", "spec": "MSpec", "constants": {"Thread": "<-" + thr, "PushImpl": '"try_insert"', "LentImpl": '"fetch_add"', "MaxCells": 10, "PushesPer": pushes, "LentPer": lents},
+                "invariants": ["RefsOwn", "NothingLost", "DistinctCells", "ChainLinear", "LentExact", "LentOwn", "LentFirstOnce"]}
+        r = vf.run_tlc(inst, "chain_%s_%d_%d" % (thr, pushes, lents), workers=4, timeout=900)
         if r["violated"]:
             raise ToolError("Chain.tla violates %s (model error)" % r["violated"])
         cov["states"] += r["distinct"]; cov["transitions"] += r["generated"]
-        cov["instances"].append({"name": "MC_Chain/%s x %d pushes" % (thr, pushes), "tlc_distinct_states": r["distinct"]})
-    sens = {"module": "MC_Chain", "spec": "MSpec", "constants": {"Thread": "<-T2", "PushImpl": '"find_then_fill"', "MaxCells": 10, "PushesPer": 1},
+        cov["instances"].append({"name": "MC_Chain/%s x %d pushes + %d lent-return calls" % (thr, pushes, lents), "tlc_distinct_states": r["distinct"]})
+    sens = {"module": "MC_Chain", "spec": "MSpec", "constants": {"Thread": "<-T2", "PushImpl": '"find_then_fill"', "LentImpl": '"fetch_add"', "MaxCells": 10, "PushesPer": 1, "LentPer": 0},
             "invariants": ["RefsOwn", "NothingLost", "DistinctCells", "ChainLinear"]}
     rs = vf.run_tlc(sens, "chain_sens", workers=2, timeout=300)
     if not rs["violated"]:
         raise ToolError("sensitivity run (find-then-fill push) violates nothing: the chain invariants are vacuous")
-    cov["sensitivity"] = {"PushImpl=find_then_fill": rs["violated"]}
+    sens2 = {"module": "MC_Chain", "spec": "MSpec", "constants": {"Thread": "<-T2", "PushImpl": '"try_insert"', "LentImpl": '"load_store"', "MaxCells": 10, "PushesPer": 0, "LentPer": 1},
+             "invariants": ["LentExact", "LentOwn", "LentFirstOnce"]}
+    rs2 = vf.run_tlc(sens2, "chain_sens_lent", workers=2, timeout=300)
+    if not rs2["violated"]:
+        raise ToolError("sensitivity run (load-then-store position counter of the lending pattern) violates nothing: the lent-return invariants are vacuous")
+    cov["sensitivity"] = {"PushImpl=find_then_fill": rs["violated"], "LentImpl=load_store": rs2["violated"]}
     divs = []
     for (build, mode) in conc_passes(tier):
         vh = vf.VH if build == "std" else vf.VH_NOSTD
